@@ -23,7 +23,7 @@ def chk(pid, category, text, note, technique, design):
 
 
 chk("C04", "model_checking",
-    "TLC exhaustively checks 13 named group/metadata laws on every one of the 237 exported tables and runs the "
+    "TLC exhaustively checks 15 named group/metadata laws on every one of the 237 exported tables and runs the "
     "lookup automaton of sg.__init__ for every number/setting pair and every dictionary key in 6 spellings; every "
     "lookup behaviour is replayed into the real sg.sg and compared with the table the model resolves. The space is "
     "finite and enumerated completely, which is the right level for a property about 13k lines of tables. One of the laws pins the "
